@@ -2,3 +2,5 @@ import Ymq.Props.C19
 #print axioms Ymq.C19.crt_symmetric
 #print axioms Ymq.C19.crt_sparse_symmetric
 #print axioms Ymq.C19.perm_sign
+#print axioms Ymq.C19.snf_ops_unimodular_partial
+#print axioms Ymq.C19.snf_diag
